@@ -734,11 +734,11 @@ impl<'a> Model<'a> {
             Ok(f) => f.floor() as i32,
             Err(s) => return s,
         };
-        let text_len = text.len() as i32;
+        let text_len = text.len() as i64;
 
         // We normally don't follow Excel's sometimes archaic size's restrictions
         // But this might be a security issue
-        if text_len * number_times > 32767 {
+        if text_len * (number_times as i64) > 32767 {
             return CalcResult::Error {
                 error: Error::VALUE,
                 origin: cell,
@@ -1090,7 +1090,7 @@ impl<'a> Model<'a> {
     // SUBSTITUTE(text, old_text, new_text, [instance_num])
     pub(crate) fn fn_substitute(&mut self, args: &[Node], cell: CellReferenceIndex) -> CalcResult {
         let arg_count = args.len();
-        if !(2..=4).contains(&arg_count) {
+        if !(3..=4).contains(&arg_count) {
             return CalcResult::new_args_number_error(cell);
         }
         let text = match self.get_string(&args[0], cell) {
